@@ -355,6 +355,33 @@ def exhausted_dup_history():
     return st.sampled_from(cases)
 
 
+def sched_hold_history():
+    """The scheduler loop has been woken (a store announcing its own writes put the new message on the schedule) but does not get
+    to run before enqueue() has made - and lost - the first attempt itself."""
+    OK = {'shape': 'none'}
+    T = {'shape': 'raise_t', 'replies': [0]}
+    MT = {'shape': 'map', 'per': ['temp'], 'replies': [0]}
+
+    @st.composite
+    def strat(draw):
+        cfg = {'backend': draw(st.sampled_from(['dict', 'disk', 'redis'])), 'backoff': [5], 'backoff_forever': True, 'late': True,
+               'announce': True, 'sched_gate': True}
+        outcome = draw(st.sampled_from([T, MT, MT, {'shape': 'map', 'per': ['ok', 'temp'], 'replies': [0]}]))
+        acts = [['enqueue', {'n': draw(st.integers(1, 2)), 'sender': True, 'body': ''}],
+                ['release_kind', 'sched', 0],           # the scheduler's first look at the (empty) schedule, if it waits for one
+                ['release_kind', 'write', 0], ['announce', 0], ['release_kind', 'write_done', 0],
+                ['release_kind', 'relay', 0, outcome]]
+        for k_ in ('increment_attempts', 'set_timestamp', 'set_recipients_delivered'):
+            if draw(st.integers(0, 5)):
+                acts.append(['release_kind', k_, 0])
+        acts.append(['release_kind', 'sched', 0])
+        step = st.one_of(st.just(['release_kind', 'sched', 0]), st.just(['release_kind', 'get', 0]), st.just(['release_kind', 'get_done', 0]),
+                         st.just(['release_kind', 'relay', 0, OK]), st.just(['storage']), st.just(['tick']),
+                         st.integers(0, 3).map(lambda i: ['release', i, OK]))
+        return cfg, acts + draw(st.lists(step, max_size=8))
+    return strat()
+
+
 def flush_blocked_spawn_history():
     """flush() of several waiting messages into a small bounded store pool: flush() is still handing the later entries to the
     pool while an earlier one has already been read, attempted and deferred again."""
